@@ -197,6 +197,67 @@ func checkCopyRows(c *Ctx) {
 		if se, ok := call.Args[1].(*ast.SelectorExpr); ok && se.Sel.Name == "Name" {
 			return true // copied as-is
 		}
+		// the source expression computed by a package-local helper: every result of the helper that is not the
+		// plain column name is returned only on paths that established !<column>.Type.Null
+		if id, ok := ast.Unparen(call.Args[1]).(*ast.Ident); ok {
+			var hcall *ast.CallExpr
+			defs := 0
+			ast.Inspect(fi.Decl.Body, func(k ast.Node) bool {
+				if das, ok := k.(*ast.AssignStmt); ok && len(das.Rhs) == 1 {
+					for _, l := range das.Lhs {
+						if lid, ok := l.(*ast.Ident); ok && info.ObjectOf(lid) == info.ObjectOf(id) {
+							defs++
+							hcall, _ = ast.Unparen(das.Rhs[0]).(*ast.CallExpr)
+						}
+					}
+				}
+				return true
+			})
+			if defs == 1 && hcall != nil {
+				if hf := c.FuncInfoOf(calleeOf(info, hcall)); hf != nil && hf.Decl.Body != nil && hf.Pkg.PkgPath == pSqlite {
+					hinfo := hf.Info()
+					var colParam types.Object
+					for _, fld := range hf.Decl.Type.Params.List {
+						for _, nm := range fld.Names {
+							if typeIs(derefType(hinfo.TypeOf(nm)), pSchema, "Column") {
+								colParam = hinfo.ObjectOf(nm)
+							}
+						}
+					}
+					hflow := newFlow(hinfo, hf.Decl.Body)
+					rewrites, allGuarded := 0, true
+					walkShallow(hf.Decl.Body, func(k ast.Node) bool {
+						ret, ok := k.(*ast.ReturnStmt)
+						if !ok || len(ret.Results) == 0 {
+							return true
+						}
+						if last := ast.Unparen(ret.Results[len(ret.Results)-1]); len(ret.Results) > 1 && !isNilIdent(hinfo, last) {
+							return true // error return
+						}
+						if se, ok := ast.Unparen(ret.Results[0]).(*ast.SelectorExpr); ok && se.Sel.Name == "Name" {
+							return true // copied as-is
+						}
+						rewrites++
+						if colParam == nil || !hflow.allPathsImply(ret, func(e ast.Expr, val bool) bool {
+							se, ok := ast.Unparen(e).(*ast.SelectorExpr)
+							if !ok || se.Sel.Name != "Null" || val {
+								return false
+							}
+							r := rootIdent(se)
+							return r != nil && hinfo.ObjectOf(r) == colParam
+						}) {
+							allGuarded = false
+						}
+						return true
+					})
+					if rewrites > 0 {
+						nRewrite++
+						c.Check("R05d", "copyRows|value rewrite only for NOT NULL target columns", as.Pos(), allGuarded, "the helper %s that computes the source expression returns a rewriting expression on a path that did not establish `!column.Type.Null` of the new column: NULLs of a column that stays nullable would be replaced", hf.Name)
+						return true
+					}
+				}
+			}
+		}
 		nRewrite++
 		guarded := false
 		child := ast.Node(as)
